@@ -13,13 +13,16 @@ import (
 // ---- C16: forceful reapers (expiration, garbage collection, liveness, node repair) ----
 // Group "Reapers": the liveness timeouts, the repair circuit-breaker percentage and its rounding mode, and
 // one control-flow fact about the garbage collector (does the per-claim closure return after it recorded a
-// failed Node lookup?).
+// failed Node lookup?), the conditions of its early returns after the two list calls, and one control-flow fact
+// about the Node -> NodeClaim lookup node repair starts with (is a Node without provider id resolved to no
+// NodeClaim before the NodeClaims are listed by provider id?).
 
 func init() {
 	register([]string{
 		"pkg/controllers/nodeclaim/lifecycle",
 		"pkg/controllers/nodeclaim/garbagecollection",
 		"pkg/controllers/node/health",
+		"pkg/utils/node",
 	}, func(g *gen) {
 		g.natConst("Reapers", "pkg/controllers/nodeclaim/lifecycle", "LaunchTimeout", "launchTimeoutNs")
 		g.natConst("Reapers", "pkg/controllers/nodeclaim/lifecycle", "registrationTimeout", "registrationTimeoutNs")
@@ -27,6 +30,7 @@ func init() {
 		c16RoundUp(g)
 		c16GCReturns(g)
 		c16GCListGuards(g)
+		c16NodeClaimLookupGuard(g)
 	})
 }
 
@@ -209,4 +213,65 @@ func c16GCListGuards(g *gen) {
 		where = append(where, gd.pos)
 	}
 	fmt.Fprintf(g.out("Reapers"), "/-- the garbage collector's list calls and the condition of the early-return `if` right after each (%s):\n    which errors of a list call end the pass -/\ndef gcListGuards : List (String × String) := [%s]\n\n", strings.Join(where, ", "), strings.Join(items, ", "))
+}
+
+// nodeutils.GetNodeClaims (behind nodeutils.NodeClaimForNode, the first call of the node/health Reconcile):
+//
+//	if node.Spec.ProviderID == "" { return nil, nil }
+//	... kubeClient.List(ctx, ncs, nodeclaimutils.ForProviderID(node.Spec.ProviderID)) ...
+//
+// Is the LIST by provider id preceded by an early return for a Node whose spec.providerID is empty? (The
+// status.providerID field index lists every NodeClaim that is still launching under "".)
+func c16NodeClaimLookupGuard(g *gen) {
+	const pkgPath = "pkg/utils/node"
+	_, fd := g.findFunc(pkgPath, "GetNodeClaims")
+	if fd == nil {
+		return
+	}
+	isEmptyPIDTest := func(e ast.Expr) bool {
+		be, ok := e.(*ast.BinaryExpr)
+		if !ok || be.Op != token.EQL {
+			return false
+		}
+		for _, pr := range [][2]ast.Expr{{be.X, be.Y}, {be.Y, be.X}} {
+			l, r := types.ExprString(pr[0]), types.ExprString(pr[1])
+			if strings.HasSuffix(l, ".Spec.ProviderID") && r == `""` {
+				return true
+			}
+			if strings.HasPrefix(l, "len(") && strings.HasSuffix(l, ".Spec.ProviderID)") && r == "0" {
+				return true
+			}
+		}
+		return false
+	}
+	listsAt, guarded, guardPos := -1, false, ""
+	for k, st := range fd.Body.List {
+		lists := false
+		ast.Inspect(st, func(n ast.Node) bool {
+			if ce, ok := n.(*ast.CallExpr); ok && strings.HasSuffix(exprString(ce.Fun), ".List") {
+				lists = true
+			}
+			return true
+		})
+		if lists {
+			listsAt = k
+			break
+		}
+		if is, ok := st.(*ast.IfStmt); ok && is.Init == nil && is.Else == nil && isEmptyPIDTest(is.Cond) {
+			if n := len(is.Body.List); n > 0 {
+				if _, ret := is.Body.List[n-1].(*ast.ReturnStmt); ret {
+					guarded, guardPos = true, g.pos(is.Pos())
+				}
+			}
+		}
+	}
+	if listsAt < 0 {
+		g.errf("%s.GetNodeClaims: no <client>.List call found at the top level", pkgPath)
+		return
+	}
+	where := g.pos(fd.Pos())
+	if guarded {
+		where = guardPos
+	}
+	fmt.Fprintf(g.out("Reapers"), "/-- `%s.GetNodeClaims` (the Node -> NodeClaim lookup of node repair): is the NodeClaim LIST by provider id preceded by\n    `if node.Spec.ProviderID == \"\" { return … }` — a Node without provider id resolves to no NodeClaim (%s)? -/\ndef nodeClaimLookupSkipsEmptyProviderID : Bool := %v\n\n", pkgPath, where, guarded)
 }
